@@ -154,9 +154,19 @@ def check_obligations(prop, module, names, workdir):
 
 def load_known():
     p = os.path.join(ROOT, "known_findings.json")
-    if not os.path.exists(p):
-        return []
-    return json.load(open(p))["findings"]
+    out = []
+    if os.path.exists(p):
+        out = list(json.load(open(p))["findings"])
+    # proposals of a property under construction (notes/findings_Cxx.json: a list of entries);
+    # the coordinator moves them into known_findings.json when the check is registered
+    import glob
+    for f in sorted(glob.glob(os.path.join(ROOT, "notes", "findings_C*.json"))):
+        try:
+            d = json.load(open(f))
+            out.extend(d["findings"] if isinstance(d, dict) else d)
+        except Exception:
+            pass
+    return out
 
 
 class Property:
